@@ -28,7 +28,22 @@ def spell_root(sp, top, sbroot, cwd=""):
         return "./" + top
     if kind == "abs":
         return sbroot + "/" + top
+    if kind == "trail":
+        return top + "/"
     raise CaseInvalid("root spelling")
+
+
+def printed(sp, rel):
+    """The path text fselect prints for an entry `rel` below a root spelled `sp` (PathBuf::join)."""
+    return sp + rel if sp.endswith("/") else sp + "/" + rel
+
+
+def quote_root(s):
+    """Roots that are not plain words are passed in single quotes (the form the manual shows for paths with spaces)."""
+    import re
+    if re.fullmatch(r"[A-Za-z0-9_./-]+", s):
+        return s
+    return "'" + s + "'"
 
 
 class Check:
@@ -59,10 +74,11 @@ class Check:
             if single_default:
                 r["sp"] = {"kind": "default"}
             else:
-                r["sp"] = {"kind": rng.choice(["rel", "rel", "dotrel", "abs"])}
-                # nested root: a sub-directory of the top
-                subs = [d for d in dirs if d.startswith(t + "/") and all(c.isalnum() or c in "_/" for c in d) and not d.split("/")[-1][0].isdigit()]
-                if subs and rng.random() < 0.2:
+                r["sp"] = {"kind": rng.choice(["rel", "rel", "dotrel", "abs", "trail"])}
+                # nested root: a sub-directory of the top; names that are not plain words are quoted in the query
+                subs = [d for d in dirs if d.startswith(t + "/") and not any(c in d for c in "'\"\\\n\t`") and not any(0xDC80 <= ord(c) <= 0xDCFF for c in d)
+                        and not d.split("/")[-1][0].isdigit() and d == d.strip() and "  " not in d]
+                if subs and rng.random() < 0.25:
                     r["top"] = rng.choice(subs)
             r["mind"] = rng.choice([0, 0, 0, 1, 2, 3, rng.randint(0, maxlvl + 2)])
             r["maxd"] = rng.choice([0, 0, 0, 1, 2, 3, rng.randint(0, maxlvl + 2)])
@@ -135,7 +151,7 @@ class Check:
         for r in case["roots"]:
             if r["sp"]["kind"] == "default":
                 continue
-            s = spell_root(r["sp"], r["top"], sbroot, case.get("cwd", ""))
+            s = quote_root(spell_root(r["sp"], r["top"], sbroot, case.get("cwd", "")))
             if r["mind"]:
                 s += " mindepth %d" % r["mind"]
             if r["maxd"]:
@@ -202,7 +218,7 @@ class Check:
                     for rel, node, lvl in walk:
                         if gen.in_window(lvl, r["mind"], r["maxd"]):
                             # fselect prints names lossily: every invalid byte becomes U+FFFD
-                            key = (sp + "/" + rel).encode("utf-8", "surrogateescape").decode("utf-8", "replace").encode("utf-8")
+                            key = printed(sp, rel).encode("utf-8", "surrogateescape").decode("utf-8", "replace").encode("utf-8")
                             exp[key] = lvl
                             expected[key] += 1
                     per_root.append((sp, r, exp))
@@ -250,7 +266,7 @@ class Check:
         """Every reported directory row must be immediately followed by exactly the reported rows of its subtree."""
         nm = gen.node_map(world)
         idx = {x: i for i, x in enumerate(rows)}
-        pre = (sp + "/").encode("utf-8")
+        pre = (sp if sp.endswith("/") else sp + "/").encode("utf-8")
         for i, x in enumerate(rows):
             rel = x[len(pre):].decode("utf-8")
             node = nm.get(r["top"] + "/" + rel)
